@@ -95,7 +95,9 @@ fn offset(zone: &str, t: &Value) -> Value {
 }
 fn local(zone: &str, l: &Value) -> Value {
     PROV.with(|p| run(|| p.borrow().get_named_tz_epoch_nanoseconds(zone, arg_iso_dt(l)?),
-                      |v| Value::Array(v.iter().map(|e| ns_point(e.as_i128())).collect())))
+                      // the answer is a set of instants: projected in ascending order
+                      |v| { let mut ns: Vec<i128> = v.iter().map(|e| e.as_i128()).collect(); ns.sort();
+                            Value::Array(ns.into_iter().map(ns_point).collect()) }))
 }
 
 pub fn exec(op: &str, a: &Value) -> Option<Value> {
